@@ -1,1 +1,1351 @@
-// stub
+//! cw1 family (cw1-whitelist and cw1-subkeys proxies): C07 (relays exactly the submitted
+//! messages, only when authorised), C08 (a subkey never spends beyond its unexpired native
+//! allowance), C16 (CanExecute predicts Execute), C17 (admin set changes only by admins
+//! while mutable; freezing is permanent).
+//! One case type + one interpreter; the oracle that is evaluated is chosen by the property
+//! id, so every check reports only its own property.
+#![allow(deprecated)] // CosmosMsg::Stargate is deprecated but still a constructible kind
+
+use cosmwasm_std::{
+    AnyMsg, BankMsg, Binary, Coin, CosmosMsg, Decimal, DistributionMsg, Empty, GovMsg, IbcMsg,
+    IbcTimeout, IbcTimeoutBlock, ReplyOn, Response, StakingMsg, Timestamp, Uint128, Uint256,
+    VoteOption, WasmMsg, WeightedVoteOption,
+};
+use cosmwasm_std::Addr;
+use cw1::CanExecuteResponse;
+use cw1_subkeys::msg::{ExecuteMsg as SubExec, QueryMsg as SubQuery};
+use cw1_subkeys::state::{Allowance, Permissions};
+use cw1_whitelist::msg::{AdminListResponse, ExecuteMsg as WlExec, InstantiateMsg, QueryMsg as WlQuery};
+use cw_utils::Expiration;
+use proptest::prelude::*;
+use proptest::strategy::Union;
+use serde::{Deserialize, Serialize};
+use std::collections::{BTreeMap, BTreeSet};
+use vcore::amounts::{edge_u128, pick};
+use vcore::direct::Direct;
+use vcore::exp::{exp_spec, is_expired, ExpSpec};
+use vcore::{CaseCtx, Family, PropSpec, Tier, Violation};
+
+/// pool of valid addresses that appear in admin lists and as subkeys
+pub const N_ACTORS: usize = 5;
+/// address-field indices: 0..N_ACTORS are the actors, N_ACTORS.. are invalid address strings
+pub const N_ADDR: usize = N_ACTORS + 2;
+/// sender indices: 0..N_ACTORS are the actors, N_ACTORS is one more valid address that never
+/// appears in any admin list or grant (the outsider)
+pub const N_SENDERS: usize = N_ACTORS + 1;
+const DENOMS: [&str; 4] = ["uatom", "ubtc", "ueth", "zzz"];
+const VALIDATORS: [&str; 2] = ["valoper-one", "valoper-two"];
+const CHANNELS: [&str; 2] = ["channel-0", "channel-7"];
+const TYPE_URLS: [&str; 2] = ["/cosmos.bank.v1beta1.MsgSend", "/cosmos.authz.v1beta1.MsgExec"];
+
+// ---------------------------------------------------------------- case
+
+/// who sends a call; the state-relative variants are resolved by the interpreter against the
+/// proxy's current state so that every caller class stays common along a history
+#[derive(Clone, Debug, Serialize, Deserialize, PartialEq)]
+pub enum Who {
+    /// sender index (0..N_SENDERS)
+    Actor(u8),
+    /// k-th current admin among the senders
+    Admin(u16),
+    /// k-th non-admin sender that was granted an allowance or permissions at some point
+    Granted(u16),
+    /// k-th non-admin sender that never received a grant
+    Plain(u16),
+    /// k-th sender that used to be admin and is not any more
+    Removed(u16),
+}
+
+/// the subkey an allowance / permission call refers to
+#[derive(Clone, Debug, Serialize, Deserialize, PartialEq)]
+pub enum Sp {
+    /// address-field index (0..N_ADDR, the last two are invalid strings)
+    Addr(u8),
+    /// k-th actor that is not an admin now
+    NonAdmin(u16),
+    /// k-th actor that has a visible allowance now
+    Holding(u16),
+}
+
+#[derive(Clone, Debug, Serialize, Deserialize, PartialEq)]
+pub enum Amt {
+    Abs(u128),
+    /// the visible allowance (of the sender for messages, of the subkey for grants) in this denom, +d
+    Rel(i8),
+    /// (k+1)/256 of that allowance
+    Frac(u8),
+    /// what is left of that allowance after the earlier bank sends of the same call, +d
+    Rest(i8),
+}
+
+/// a denomination: fixed index into the denom pool, or relative to the allowance in question
+#[derive(Clone, Debug, Serialize, Deserialize, PartialEq)]
+pub enum Den {
+    Ix(u8),
+    /// k-th denom of the visible allowance (of the sender for messages, of the subkey for
+    /// grants); falls back to the pool when that allowance is empty
+    Held(u16),
+}
+
+pub type Coins = Vec<(Den, Amt)>;
+
+/// serialisable description of one CosmosMsg; the interpreter builds the real message
+#[derive(Clone, Debug, Serialize, Deserialize, PartialEq)]
+pub enum MsgSpec {
+    Send { to: u8, coins: Coins },
+    Burn { coins: Coins },
+    Delegate { val: u8, denom: Den, amt: Amt },
+    Undelegate { val: u8, denom: Den, amt: Amt },
+    Redelegate { src: u8, dst: u8, denom: Den, amt: Amt },
+    SetWithdrawAddress { to: u8 },
+    WithdrawReward { val: u8 },
+    FundCommunityPool { coins: Coins },
+    WasmExecute { to: u8, payload: Vec<u8>, coins: Coins },
+    WasmInstantiate { admin: Option<u8>, code_id: u64, payload: Vec<u8>, coins: Coins },
+    WasmInstantiate2 { admin: Option<u8>, code_id: u64, payload: Vec<u8>, coins: Coins, salt: Vec<u8> },
+    WasmMigrate { to: u8, code_id: u64, payload: Vec<u8> },
+    WasmUpdateAdmin { to: u8, admin: u8 },
+    WasmClearAdmin { to: u8 },
+    IbcTransfer { channel: u8, to: u8, denom: Den, amt: Amt, timeout: u8, memo: bool },
+    IbcSendPacket { channel: u8, data: Vec<u8>, timeout: u8 },
+    IbcCloseChannel { channel: u8 },
+    GovVote { id: u64, option: u8 },
+    GovVoteWeighted { id: u64, options: Vec<(u8, u8)> },
+    Stargate { url: u8, value: Vec<u8> },
+    Any { url: u8, value: Vec<u8> },
+    Custom,
+}
+
+impl MsgSpec {
+    fn kind(&self) -> &'static str {
+        match self {
+            MsgSpec::Send { .. } => "send",
+            MsgSpec::Burn { .. } => "burn",
+            MsgSpec::Delegate { .. } => "delegate",
+            MsgSpec::Undelegate { .. } => "undelegate",
+            MsgSpec::Redelegate { .. } => "redelegate",
+            MsgSpec::SetWithdrawAddress { .. } => "set_withdraw_address",
+            MsgSpec::WithdrawReward { .. } => "withdraw_reward",
+            MsgSpec::FundCommunityPool { .. } => "fund_community_pool",
+            MsgSpec::WasmExecute { .. } => "wasm_execute",
+            MsgSpec::WasmInstantiate { .. } => "wasm_instantiate",
+            MsgSpec::WasmInstantiate2 { .. } => "wasm_instantiate2",
+            MsgSpec::WasmMigrate { .. } => "wasm_migrate",
+            MsgSpec::WasmUpdateAdmin { .. } => "wasm_update_admin",
+            MsgSpec::WasmClearAdmin { .. } => "wasm_clear_admin",
+            MsgSpec::IbcTransfer { .. } => "ibc_transfer",
+            MsgSpec::IbcSendPacket { .. } => "ibc_send_packet",
+            MsgSpec::IbcCloseChannel { .. } => "ibc_close_channel",
+            MsgSpec::GovVote { .. } => "gov_vote",
+            MsgSpec::GovVoteWeighted { .. } => "gov_vote_weighted",
+            MsgSpec::Stargate { .. } => "stargate",
+            MsgSpec::Any { .. } => "any",
+            MsgSpec::Custom => "custom",
+        }
+    }
+}
+
+#[derive(Clone, Debug, Serialize, Deserialize, PartialEq)]
+pub enum Op {
+    Execute { by: Who, msgs: Vec<MsgSpec> },
+    Freeze { by: Who },
+    UpdateAdmins { by: Who, admins: Vec<u8> },
+    Increase { by: Who, spender: Sp, denom: Den, amt: Amt, exp: Option<ExpSpec> },
+    Decrease { by: Who, spender: Sp, denom: Den, amt: Amt, exp: Option<ExpSpec> },
+    /// perm bits: 1 delegate, 2 redelegate, 4 undelegate, 8 withdraw
+    SetPermissions { by: Who, spender: Sp, perm: u8 },
+    Advance { blocks: u8, secs: u16 },
+}
+
+#[derive(Clone, Debug, Serialize, Deserialize, PartialEq)]
+pub struct Probe {
+    pub sender: Who,
+    pub msg: MsgSpec,
+}
+
+#[derive(Clone, Debug, Serialize, Deserialize, PartialEq)]
+pub struct Case {
+    /// true: cw1-subkeys, false: cw1-whitelist
+    pub subkeys: bool,
+    /// address-field indices (duplicates and invalid strings possible)
+    pub admins: Vec<u8>,
+    pub mutable: bool,
+    pub ops: Vec<Op>,
+    /// C16: (sender, message) pairs compared on the state reached by `ops`
+    pub probes: Vec<Probe>,
+}
+
+// ---------------------------------------------------------------- strategies
+
+fn addr_ix() -> BoxedStrategy<u8> {
+    prop_oneof![40 => 0u8..N_ACTORS as u8, 1 => N_ACTORS as u8..N_ADDR as u8].boxed()
+}
+/// denom of a coin inside a message
+fn denom_ix() -> BoxedStrategy<Den> {
+    prop_oneof![10 => any::<u16>().prop_map(Den::Held), 4 => (0u8..3).prop_map(Den::Ix), 1 => Just(Den::Ix(3))].boxed()
+}
+fn denom_grant() -> BoxedStrategy<Den> {
+    prop_oneof![3 => any::<u16>().prop_map(Den::Held), 8 => (0u8..3).prop_map(Den::Ix), 1 => Just(Den::Ix(3))].boxed()
+}
+fn denom_decrease() -> BoxedStrategy<Den> {
+    prop_oneof![8 => any::<u16>().prop_map(Den::Held), 2 => (0u8..3).prop_map(Den::Ix), 1 => Just(Den::Ix(3))].boxed()
+}
+fn bytes() -> BoxedStrategy<Vec<u8>> {
+    proptest::collection::vec(any::<u8>(), 0..5).boxed()
+}
+
+fn amt_msg() -> BoxedStrategy<Amt> {
+    prop_oneof![
+        6 => any::<u8>().prop_map(Amt::Frac),
+        5 => (-1i8..=1).prop_map(Amt::Rest),
+        4 => (-1i8..=1).prop_map(Amt::Rel),
+        2 => Just(Amt::Abs(0)),
+        1 => Just(Amt::Abs(1)),
+        3 => (0u128..200).prop_map(Amt::Abs),
+        1 => edge_u128().prop_map(Amt::Abs),
+    ]
+    .boxed()
+}
+
+fn amt_grant() -> BoxedStrategy<Amt> {
+    prop_oneof![
+        1 => Just(Amt::Abs(0)),
+        1 => Just(Amt::Abs(1)),
+        14 => (1u128..1000).prop_map(Amt::Abs),
+        2 => (0u128..=1_000_000).prop_map(Amt::Abs),
+        1 => edge_u128().prop_map(Amt::Abs),
+        1 => (-1i8..=1).prop_map(Amt::Rel),
+    ]
+    .boxed()
+}
+
+fn amt_decrease() -> BoxedStrategy<Amt> {
+    prop_oneof![
+        5 => (-1i8..=1).prop_map(Amt::Rel),
+        6 => any::<u8>().prop_map(Amt::Frac),
+        1 => Just(Amt::Abs(0)),
+        4 => (0u128..300).prop_map(Amt::Abs),
+        1 => edge_u128().prop_map(Amt::Abs),
+    ]
+    .boxed()
+}
+
+fn coins(max: usize) -> BoxedStrategy<Coins> {
+    prop_oneof![
+        1 => Just(vec![]),
+        8 => proptest::collection::vec((denom_ix(), amt_msg()), 1..=1),
+        4 => proptest::collection::vec((denom_ix(), amt_msg()), 0..=max),
+    ]
+    .boxed()
+}
+
+#[derive(Clone, Copy)]
+struct MsgWeights {
+    send: u32,
+    burn: u32,
+    staking: u32, // each of the three staking variants
+    distr: u32,   // each of the three distribution variants
+    other: u32,   // each of the remaining 14 kinds
+}
+
+fn msg_spec(w: MsgWeights) -> BoxedStrategy<MsgSpec> {
+    let b = |s: BoxedStrategy<MsgSpec>| s;
+    let arms: Vec<(u32, BoxedStrategy<MsgSpec>)> = vec![
+        (w.send, b((addr_ix(), coins(3)).prop_map(|(to, coins)| MsgSpec::Send { to, coins }).boxed())),
+        (w.burn, b(coins(2).prop_map(|coins| MsgSpec::Burn { coins }).boxed())),
+        (w.staking, b((0u8..2, denom_ix(), amt_msg()).prop_map(|(val, denom, amt)| MsgSpec::Delegate { val, denom, amt }).boxed())),
+        (w.staking, b((0u8..2, denom_ix(), amt_msg()).prop_map(|(val, denom, amt)| MsgSpec::Undelegate { val, denom, amt }).boxed())),
+        (w.staking, b((0u8..2, 0u8..2, denom_ix(), amt_msg()).prop_map(|(src, dst, denom, amt)| MsgSpec::Redelegate { src, dst, denom, amt }).boxed())),
+        (w.distr, b(addr_ix().prop_map(|to| MsgSpec::SetWithdrawAddress { to }).boxed())),
+        (w.distr, b((0u8..2).prop_map(|val| MsgSpec::WithdrawReward { val }).boxed())),
+        (w.distr, b(coins(2).prop_map(|coins| MsgSpec::FundCommunityPool { coins }).boxed())),
+        (w.other, b((addr_ix(), bytes(), coins(2)).prop_map(|(to, payload, coins)| MsgSpec::WasmExecute { to, payload, coins }).boxed())),
+        (w.other, b((proptest::option::of(addr_ix()), 0u64..9, bytes(), coins(2)).prop_map(|(admin, code_id, payload, coins)| MsgSpec::WasmInstantiate { admin, code_id, payload, coins }).boxed())),
+        (w.other, b((proptest::option::of(addr_ix()), 0u64..9, bytes(), coins(2), bytes()).prop_map(|(admin, code_id, payload, coins, salt)| MsgSpec::WasmInstantiate2 { admin, code_id, payload, coins, salt }).boxed())),
+        (w.other, b((addr_ix(), 0u64..9, bytes()).prop_map(|(to, code_id, payload)| MsgSpec::WasmMigrate { to, code_id, payload }).boxed())),
+        (w.other, b((addr_ix(), addr_ix()).prop_map(|(to, admin)| MsgSpec::WasmUpdateAdmin { to, admin }).boxed())),
+        (w.other, b(addr_ix().prop_map(|to| MsgSpec::WasmClearAdmin { to }).boxed())),
+        (w.other, b((0u8..2, addr_ix(), denom_ix(), amt_msg(), 0u8..3, any::<bool>()).prop_map(|(channel, to, denom, amt, timeout, memo)| MsgSpec::IbcTransfer { channel, to, denom, amt, timeout, memo }).boxed())),
+        (w.other, b((0u8..2, bytes(), 0u8..3).prop_map(|(channel, data, timeout)| MsgSpec::IbcSendPacket { channel, data, timeout }).boxed())),
+        (w.other, b((0u8..2).prop_map(|channel| MsgSpec::IbcCloseChannel { channel }).boxed())),
+        (w.other, b((0u64..5, 0u8..4).prop_map(|(id, option)| MsgSpec::GovVote { id, option }).boxed())),
+        (w.other, b((0u64..5, proptest::collection::vec((0u8..4, 0u8..=100), 0..3)).prop_map(|(id, options)| MsgSpec::GovVoteWeighted { id, options }).boxed())),
+        (w.other, b((0u8..2, bytes()).prop_map(|(url, value)| MsgSpec::Stargate { url, value }).boxed())),
+        (w.other, b((0u8..2, bytes()).prop_map(|(url, value)| MsgSpec::Any { url, value }).boxed())),
+        (w.other, b(Just(MsgSpec::Custom).boxed())),
+    ];
+    Union::new_weighted(arms.into_iter().filter(|(w, _)| *w > 0).collect::<Vec<_>>()).boxed()
+}
+
+/// messages a subkey may be entitled to (bank sends within the allowance, staking /
+/// distribution messages covered by flags): used as the allowed prefix of mixed lists
+fn grantable_msg() -> BoxedStrategy<MsgSpec> {
+    let small = || prop_oneof![4 => (0u8..80).prop_map(Amt::Frac), 2 => Just(Amt::Rest(0)), 1 => Just(Amt::Abs(1)), 1 => Just(Amt::Abs(0))];
+    prop_oneof![
+        8 => (addr_ix(), proptest::collection::vec((any::<u16>().prop_map(Den::Held), small()), 1..=2)).prop_map(|(to, coins)| MsgSpec::Send { to, coins }),
+        1 => (0u8..2, denom_ix(), amt_msg()).prop_map(|(val, denom, amt)| MsgSpec::Delegate { val, denom, amt }),
+        1 => (0u8..2, denom_ix(), amt_msg()).prop_map(|(val, denom, amt)| MsgSpec::Undelegate { val, denom, amt }),
+        1 => (0u8..2, 0u8..2, denom_ix(), amt_msg()).prop_map(|(src, dst, denom, amt)| MsgSpec::Redelegate { src, dst, denom, amt }),
+        1 => addr_ix().prop_map(|to| MsgSpec::SetWithdrawAddress { to }),
+        1 => (0u8..2).prop_map(|val| MsgSpec::WithdrawReward { val }),
+    ]
+    .boxed()
+}
+
+fn who(admin: u32, granted: u32, plain: u32, removed: u32, actor: u32) -> BoxedStrategy<Who> {
+    let arms: Vec<(u32, BoxedStrategy<Who>)> = vec![
+        (admin, any::<u16>().prop_map(Who::Admin).boxed()),
+        (granted, any::<u16>().prop_map(Who::Granted).boxed()),
+        (plain, any::<u16>().prop_map(Who::Plain).boxed()),
+        (removed, any::<u16>().prop_map(Who::Removed).boxed()),
+        (actor, (0u8..N_SENDERS as u8).prop_map(Who::Actor).boxed()),
+    ];
+    Union::new_weighted(arms.into_iter().filter(|(w, _)| *w > 0).collect::<Vec<_>>()).boxed()
+}
+
+fn sp() -> BoxedStrategy<Sp> {
+    prop_oneof![
+        6 => any::<u16>().prop_map(Sp::NonAdmin),
+        5 => any::<u16>().prop_map(Sp::Holding),
+        4 => addr_ix().prop_map(Sp::Addr),
+    ]
+    .boxed()
+}
+
+fn perm_bits() -> BoxedStrategy<u8> {
+    prop_oneof![4 => Just(15u8), 1 => Just(0u8), 6 => 0u8..16].boxed()
+}
+
+fn admin_list() -> BoxedStrategy<Vec<u8>> {
+    prop_oneof![
+        1 => Just(vec![]),
+        8 => proptest::collection::vec(addr_ix(), 1..=2),
+        3 => proptest::collection::vec(addr_ix(), 3..=3),
+    ]
+    .boxed()
+}
+
+#[derive(Clone, Copy)]
+struct OpWeights {
+    exec: u32,
+    mixed: u32, // Execute: grantable prefix + one arbitrary last message, by a granted subkey
+    freeze: u32,
+    upd: u32,
+    incr: u32,
+    decr: u32,
+    perm: u32,
+    adv: u32,
+    /// grant; advance; spend; grant again on one subkey (C08)
+    regrant: u32,
+}
+
+fn op_weights(prop: &str, subkeys: bool) -> OpWeights {
+    let mut w = match prop {
+        "C08" => OpWeights { exec: 12, mixed: 2, freeze: 0, upd: 1, incr: 8, decr: 3, perm: 1, adv: 5, regrant: 2 },
+        "C17" => OpWeights { exec: 3, mixed: 0, freeze: 1, upd: 9, incr: 3, decr: 2, perm: 3, adv: 1, regrant: 0 },
+        // C07, C16
+        _ => OpWeights { exec: 9, mixed: 5, freeze: 1, upd: 2, incr: 7, decr: 2, perm: 4, adv: 3, regrant: 0 },
+    };
+    if !subkeys {
+        w.incr = 0;
+        w.decr = 0;
+        w.perm = 0;
+        w.regrant = 0;
+        w.mixed = 0;
+        if prop != "C17" {
+            w.upd += 2;
+        }
+    }
+    w
+}
+
+fn msg_weights(prop: &str) -> MsgWeights {
+    match prop {
+        "C08" => MsgWeights { send: 60, burn: 2, staking: 1, distr: 1, other: 0 },
+        "C17" => MsgWeights { send: 20, burn: 1, staking: 2, distr: 2, other: 1 },
+        _ => MsgWeights { send: 22, burn: 4, staking: 3, distr: 3, other: 1 },
+    }
+}
+
+fn op_group(prop: &str, subkeys: bool) -> BoxedStrategy<Vec<Op>> {
+    let w = op_weights(prop, subkeys);
+    let mw = msg_weights(prop);
+    let one = |s: BoxedStrategy<Op>| s.prop_map(|o| vec![o]).boxed();
+    let exec_who = if subkeys { who(3, 8, 1, 1, 1) } else { who(5, 0, 4, 2, 3) };
+    let admin_who = || who(10, 1, 1, 1, 1);
+    let msgs = prop_oneof![
+        1 => Just(vec![]),
+        6 => proptest::collection::vec(msg_spec(mw), 1..=1),
+        8 => proptest::collection::vec(msg_spec(mw), 2..=5),
+    ];
+    let arms: Vec<(u32, BoxedStrategy<Vec<Op>>)> = vec![
+        (w.exec, one((exec_who, msgs).prop_map(|(by, msgs)| Op::Execute { by, msgs }).boxed())),
+        (w.mixed, one((who(0, 12, 1, 0, 1), proptest::collection::vec(grantable_msg(), 1..=3), msg_spec(MsgWeights { send: 6, burn: 4, staking: 1, distr: 2, other: 1 }))
+            .prop_map(|(by, mut msgs, last)| {
+                msgs.push(last);
+                Op::Execute { by, msgs }
+            })
+            .boxed())),
+        (w.freeze, one(who(6, 2, 2, 2, 2).prop_map(|by| Op::Freeze { by }).boxed())),
+        (w.upd, one((who(8, 1, 1, 3, 2), admin_list()).prop_map(|(by, admins)| Op::UpdateAdmins { by, admins }).boxed())),
+        (w.incr, one((admin_who(), sp(), denom_grant(), amt_grant(), prop_oneof![2 => Just(None), 3 => exp_spec().prop_map(Some)]).prop_map(|(by, spender, denom, amt, exp)| Op::Increase { by, spender, denom, amt, exp }).boxed())),
+        (w.decr, one((admin_who(), sp(), denom_decrease(), amt_decrease(), prop_oneof![4 => Just(None), 1 => exp_spec().prop_map(Some)]).prop_map(|(by, spender, denom, amt, exp)| Op::Decrease { by, spender, denom, amt, exp }).boxed())),
+        (w.perm, one((admin_who(), sp(), perm_bits()).prop_map(|(by, spender, perm)| Op::SetPermissions { by, spender, perm }).boxed())),
+        (w.adv, one((0u8..4, 0u16..40).prop_map(|(blocks, secs)| Op::Advance { blocks, secs }).boxed())),
+        (w.regrant, (0u8..N_ACTORS as u8, (0u8..3).prop_map(Den::Ix), 1u128..500, prop_oneof![(0i32..3).prop_map(ExpSpec::Height), (0i64..12).prop_map(ExpSpec::Time)], 0u8..4, proptest::collection::vec(msg_spec(MsgWeights { send: 1, burn: 0, staking: 0, distr: 0, other: 0 }), 1..=2), 1u128..500, exp_spec())
+            .prop_map(|(s, denom, g1, e1, adv, msgs, g2, e2)| {
+                vec![
+                    Op::Increase { by: Who::Admin(0), spender: Sp::Addr(s), denom: denom.clone(), amt: Amt::Abs(g1), exp: Some(e1) },
+                    Op::Advance { blocks: adv, secs: adv as u16 * 5 },
+                    Op::Execute { by: Who::Actor(s), msgs },
+                    Op::Increase { by: Who::Admin(0), spender: Sp::Addr(s), denom, amt: Amt::Abs(g2), exp: Some(e2) },
+                ]
+            })
+            .boxed()),
+    ];
+    Union::new_weighted(arms.into_iter().filter(|(w, _)| *w > 0).collect::<Vec<_>>()).boxed()
+}
+
+fn probe(subkeys: bool) -> BoxedStrategy<Probe> {
+    let sender = if subkeys { who(2, 8, 1, 1, 2) } else { who(4, 0, 3, 2, 3) };
+    (sender, msg_spec(MsgWeights { send: 30, burn: 4, staking: 3, distr: 3, other: 1 })).prop_map(|(sender, msg)| Probe { sender, msg }).boxed()
+}
+
+pub fn case_strategy(prop: &str, tier: Tier) -> BoxedStrategy<Case> {
+    let max_groups = match (prop, tier) {
+        ("C16", Tier::Quick) => 25usize,
+        ("C16", Tier::Thorough) => 50,
+        (_, Tier::Quick) => 40,
+        (_, Tier::Thorough) => 100,
+    };
+    let p_subkeys = match prop {
+        "C08" => 1.0,
+        "C17" => 0.5,
+        "C16" => 0.75,
+        _ => 0.7,
+    };
+    let prop = prop.to_string();
+    let n_probes = if prop == "C16" { 20usize } else { 0 };
+    let p_mutable = if prop == "C17" { 0.8 } else { 0.9 };
+    proptest::bool::weighted(p_subkeys)
+        .prop_flat_map(move |subkeys| {
+            let ops = proptest::collection::vec(op_group(&prop, subkeys), 0..max_groups).prop_map(|g| g.into_iter().flatten().collect::<Vec<_>>());
+            let probes = proptest::collection::vec(probe(subkeys), n_probes..=n_probes);
+            (admin_list(), proptest::bool::weighted(p_mutable), ops, probes).prop_map(move |(admins, mutable, ops, probes)| Case { subkeys, admins, mutable, ops, probes })
+        })
+        .boxed()
+}
+
+// ---------------------------------------------------------------- world
+
+#[derive(Clone, Debug, PartialEq)]
+struct Vis {
+    /// denom -> amount, zero amounts dropped
+    bal: BTreeMap<String, u128>,
+    expires: Expiration,
+}
+
+impl Vis {
+    fn none() -> Vis {
+        Vis { bal: BTreeMap::new(), expires: Expiration::Never {} }
+    }
+    fn get(&self, denom: &str) -> u128 {
+        self.bal.get(denom).copied().unwrap_or(0)
+    }
+}
+
+/// everything the public queries show, for the admin list and the N_SENDERS addresses
+#[derive(Clone, Debug, PartialEq)]
+struct Obs {
+    admins: Vec<String>,
+    mutable: bool,
+    allow: Vec<Vis>,
+    perms: Vec<Permissions>,
+}
+
+impl Obs {
+    fn is_admin(&self, a: &str) -> bool {
+        self.admins.iter().any(|x| x == a)
+    }
+}
+
+#[derive(Clone, Debug)]
+enum Call {
+    Execute(Vec<CosmosMsg>),
+    Freeze,
+    UpdateAdmins(Vec<String>),
+    Increase { spender: String, coin: Coin, exp: Option<Expiration> },
+    Decrease { spender: String, coin: Coin, exp: Option<Expiration> },
+    SetPermissions { spender: String, perm: Permissions },
+}
+
+impl Call {
+    fn kind(&self) -> &'static str {
+        match self {
+            Call::Execute(_) => "Execute",
+            Call::Freeze => "Freeze",
+            Call::UpdateAdmins(_) => "UpdateAdmins",
+            Call::Increase { .. } => "Increase",
+            Call::Decrease { .. } => "Decrease",
+            Call::SetPermissions { .. } => "SetPermissions",
+        }
+    }
+}
+
+struct World {
+    d: Direct,
+    subkeys: bool,
+    senders: Vec<Addr>,
+    addrs: Vec<String>,
+}
+
+fn exec_on(d: &mut Direct, subkeys: bool, sender: &Addr, call: &Call) -> Result<Response, String> {
+    let info = Direct::info(sender, &[]);
+    if subkeys {
+        let msg: SubExec<Empty> = match call.clone() {
+            Call::Execute(msgs) => SubExec::Execute { msgs },
+            Call::Freeze => SubExec::Freeze {},
+            Call::UpdateAdmins(admins) => SubExec::UpdateAdmins { admins },
+            Call::Increase { spender, coin, exp } => SubExec::IncreaseAllowance { spender, amount: coin, expires: exp },
+            Call::Decrease { spender, coin, exp } => SubExec::DecreaseAllowance { spender, amount: coin, expires: exp },
+            Call::SetPermissions { spender, perm } => SubExec::SetPermissions { spender, permissions: perm },
+        };
+        d.tx(|deps, env| cw1_subkeys::contract::execute(deps, env, info, msg))
+    } else {
+        let msg: WlExec<Empty> = match call.clone() {
+            Call::Execute(msgs) => WlExec::Execute { msgs },
+            Call::Freeze => WlExec::Freeze {},
+            Call::UpdateAdmins(admins) => WlExec::UpdateAdmins { admins },
+            _ => return Err("not a cw1-whitelist message".to_string()),
+        };
+        d.tx(|deps, env| cw1_whitelist::contract::execute(deps, env, info, msg))
+    }
+}
+
+fn can_execute_on(d: &Direct, subkeys: bool, sender: &Addr, msg: &CosmosMsg) -> Result<bool, String> {
+    let r: CanExecuteResponse = if subkeys {
+        let q: SubQuery<Empty> = SubQuery::CanExecute { sender: sender.to_string(), msg: msg.clone() };
+        d.query(|deps, env| cw1_subkeys::contract::query(deps, env, q))?
+    } else {
+        let q: WlQuery<Empty> = WlQuery::CanExecute { sender: sender.to_string(), msg: msg.clone() };
+        d.query(|deps, env| cw1_whitelist::contract::query(deps, env, q))?
+    };
+    Ok(r.can_execute)
+}
+
+impl World {
+    fn new(subkeys: bool) -> World {
+        let d = Direct::new();
+        let mut senders: Vec<Addr> = (0..N_ACTORS).map(|i| d.api.addr_make(&format!("actor{i}"))).collect();
+        senders.push(d.api.addr_make("outsider"));
+        let mut addrs: Vec<String> = senders[..N_ACTORS].iter().map(|a| a.to_string()).collect();
+        addrs.push("x".to_string());
+        addrs.push(senders[0].to_string().to_uppercase());
+        World { d, subkeys, senders, addrs }
+    }
+
+    fn observe(&self) -> Result<Obs, String> {
+        let al: AdminListResponse = if self.subkeys {
+            self.d.query(|deps, env| cw1_subkeys::contract::query(deps, env, SubQuery::AdminList {}))?
+        } else {
+            self.d.query(|deps, env| cw1_whitelist::contract::query(deps, env, WlQuery::AdminList {}))?
+        };
+        let mut allow = vec![];
+        let mut perms = vec![];
+        for a in &self.senders {
+            if self.subkeys {
+                let r: Allowance = self.d.query(|deps, env| cw1_subkeys::contract::query(deps, env, SubQuery::Allowance { spender: a.to_string() }))?;
+                let mut bal: BTreeMap<String, u128> = BTreeMap::new();
+                for c in r.balance.0 {
+                    let e = bal.entry(c.denom).or_insert(0);
+                    *e = e.saturating_add(c.amount.u128());
+                }
+                bal.retain(|_, v| *v != 0);
+                allow.push(Vis { bal, expires: r.expires });
+                let p: Permissions = self.d.query(|deps, env| cw1_subkeys::contract::query(deps, env, SubQuery::Permissions { spender: a.to_string() }))?;
+                perms.push(p);
+            } else {
+                allow.push(Vis::none());
+                perms.push(Permissions::default());
+            }
+        }
+        Ok(Obs { admins: al.admins, mutable: al.mutable, allow, perms })
+    }
+}
+
+fn v(prop: &str, sig: &str, msg: String) -> Violation {
+    Violation::new(prop, &format!("{prop}/{sig}"), msg)
+}
+
+fn adj(base: u128, d: i8) -> u128 {
+    if d >= 0 {
+        base.saturating_add(d as u128)
+    } else {
+        base.saturating_sub((-(d as i16)) as u128)
+    }
+}
+
+fn resolve_den(d: &Den, allow: &Vis) -> String {
+    match d {
+        Den::Ix(i) => DENOMS[*i as usize % DENOMS.len()].to_string(),
+        Den::Held(k) => {
+            if allow.bal.is_empty() {
+                DENOMS[pick(*k, 3)].to_string()
+            } else {
+                allow.bal.keys().nth(pick(*k, allow.bal.len())).cloned().unwrap_or_default()
+            }
+        }
+    }
+}
+
+fn frac(x: u128, k: u8) -> u128 {
+    let r = Uint256::from(x) * Uint256::from(k as u128 + 1) / Uint256::from(256u128);
+    Uint128::try_from(r).map(|u| u.u128()).unwrap_or(x)
+}
+
+/// builds the real messages of one call for one sender
+struct Builder<'a> {
+    w: &'a World,
+    allow: &'a Vis,
+    /// per denom: amount already put into bank sends of this call
+    used: BTreeMap<String, u128>,
+}
+
+impl<'a> Builder<'a> {
+    fn amount(&self, denom: &str, a: &Amt) -> u128 {
+        let have = self.allow.get(denom);
+        match a {
+            Amt::Abs(x) => *x,
+            Amt::Rel(d) => adj(have, *d),
+            Amt::Frac(k) => frac(have, *k),
+            Amt::Rest(d) => adj(have.saturating_sub(self.used.get(denom).copied().unwrap_or(0)), *d),
+        }
+    }
+    fn coin(&mut self, denom: &Den, a: &Amt, is_send: bool) -> Coin {
+        let denom = resolve_den(denom, self.allow);
+        let denom = denom.as_str();
+        let x = self.amount(denom, a);
+        if is_send {
+            let e = self.used.entry(denom.to_string()).or_insert(0);
+            *e = e.saturating_add(x);
+        }
+        Coin { denom: denom.to_string(), amount: Uint128::new(x) }
+    }
+    fn coins(&mut self, cs: &Coins, is_send: bool) -> Vec<Coin> {
+        cs.iter().map(|(d, a)| self.coin(d, a, is_send)).collect()
+    }
+    fn addr(&self, i: u8) -> String {
+        self.w.addrs[i as usize % N_ADDR].clone()
+    }
+    fn val(&self, i: u8) -> String {
+        VALIDATORS[i as usize % VALIDATORS.len()].to_string()
+    }
+    fn timeout(&self, k: u8) -> IbcTimeout {
+        let ts = Timestamp::from_seconds(self.w.d.time + 60);
+        let blk = IbcTimeoutBlock { revision: 1, height: self.w.d.height + 10 };
+        match k % 3 {
+            0 => IbcTimeout::with_timestamp(ts),
+            1 => IbcTimeout::with_block(blk),
+            _ => IbcTimeout::with_both(blk, ts),
+        }
+    }
+    fn build(&mut self, m: &MsgSpec) -> CosmosMsg {
+        let vote = |o: u8| match o % 4 {
+            0 => VoteOption::Yes,
+            1 => VoteOption::No,
+            2 => VoteOption::Abstain,
+            _ => VoteOption::NoWithVeto,
+        };
+        match m {
+            MsgSpec::Send { to, coins } => CosmosMsg::Bank(BankMsg::Send { to_address: self.addr(*to), amount: self.coins(coins, true) }),
+            MsgSpec::Burn { coins } => CosmosMsg::Bank(BankMsg::Burn { amount: self.coins(coins, false) }),
+            MsgSpec::Delegate { val, denom, amt } => CosmosMsg::Staking(StakingMsg::Delegate { validator: self.val(*val), amount: self.coin(denom, amt, false) }),
+            MsgSpec::Undelegate { val, denom, amt } => CosmosMsg::Staking(StakingMsg::Undelegate { validator: self.val(*val), amount: self.coin(denom, amt, false) }),
+            MsgSpec::Redelegate { src, dst, denom, amt } => CosmosMsg::Staking(StakingMsg::Redelegate { src_validator: self.val(*src), dst_validator: self.val(*dst), amount: self.coin(denom, amt, false) }),
+            MsgSpec::SetWithdrawAddress { to } => CosmosMsg::Distribution(DistributionMsg::SetWithdrawAddress { address: self.addr(*to) }),
+            MsgSpec::WithdrawReward { val } => CosmosMsg::Distribution(DistributionMsg::WithdrawDelegatorReward { validator: self.val(*val) }),
+            MsgSpec::FundCommunityPool { coins } => CosmosMsg::Distribution(DistributionMsg::FundCommunityPool { amount: self.coins(coins, false) }),
+            MsgSpec::WasmExecute { to, payload, coins } => CosmosMsg::Wasm(WasmMsg::Execute { contract_addr: self.addr(*to), msg: Binary::from(payload.clone()), funds: self.coins(coins, false) }),
+            MsgSpec::WasmInstantiate { admin, code_id, payload, coins } => CosmosMsg::Wasm(WasmMsg::Instantiate { admin: admin.map(|a| self.addr(a)), code_id: *code_id, msg: Binary::from(payload.clone()), funds: self.coins(coins, false), label: "proxy-child".to_string() }),
+            MsgSpec::WasmInstantiate2 { admin, code_id, payload, coins, salt } => CosmosMsg::Wasm(WasmMsg::Instantiate2 { admin: admin.map(|a| self.addr(a)), code_id: *code_id, label: "proxy-child".to_string(), msg: Binary::from(payload.clone()), funds: self.coins(coins, false), salt: Binary::from(salt.clone()) }),
+            MsgSpec::WasmMigrate { to, code_id, payload } => CosmosMsg::Wasm(WasmMsg::Migrate { contract_addr: self.addr(*to), new_code_id: *code_id, msg: Binary::from(payload.clone()) }),
+            MsgSpec::WasmUpdateAdmin { to, admin } => CosmosMsg::Wasm(WasmMsg::UpdateAdmin { contract_addr: self.addr(*to), admin: self.addr(*admin) }),
+            MsgSpec::WasmClearAdmin { to } => CosmosMsg::Wasm(WasmMsg::ClearAdmin { contract_addr: self.addr(*to) }),
+            MsgSpec::IbcTransfer { channel, to, denom, amt, timeout, memo } => CosmosMsg::Ibc(IbcMsg::Transfer {
+                channel_id: CHANNELS[*channel as usize % CHANNELS.len()].to_string(),
+                to_address: self.addr(*to),
+                amount: self.coin(denom, amt, false),
+                timeout: self.timeout(*timeout),
+                memo: if *memo { Some("memo".to_string()) } else { None },
+            }),
+            MsgSpec::IbcSendPacket { channel, data, timeout } => CosmosMsg::Ibc(IbcMsg::SendPacket { channel_id: CHANNELS[*channel as usize % CHANNELS.len()].to_string(), data: Binary::from(data.clone()), timeout: self.timeout(*timeout) }),
+            MsgSpec::IbcCloseChannel { channel } => CosmosMsg::Ibc(IbcMsg::CloseChannel { channel_id: CHANNELS[*channel as usize % CHANNELS.len()].to_string() }),
+            MsgSpec::GovVote { id, option } => CosmosMsg::Gov(GovMsg::Vote { proposal_id: *id, option: vote(*option) }),
+            MsgSpec::GovVoteWeighted { id, options } => CosmosMsg::Gov(GovMsg::VoteWeighted { proposal_id: *id, options: options.iter().map(|(o, w)| WeightedVoteOption { option: vote(*o), weight: Decimal::percent(*w as u64) }).collect() }),
+            MsgSpec::Stargate { url, value } => CosmosMsg::Stargate { type_url: TYPE_URLS[*url as usize % TYPE_URLS.len()].to_string(), value: Binary::from(value.clone()) },
+            MsgSpec::Any { url, value } => CosmosMsg::Any(AnyMsg { type_url: TYPE_URLS[*url as usize % TYPE_URLS.len()].to_string(), value: Binary::from(value.clone()) }),
+            MsgSpec::Custom => CosmosMsg::Custom(Empty {}),
+        }
+    }
+}
+
+// ---------------------------------------------------------------- authorisation predicate (C07)
+
+/// What the subkeys documentation grants to a non-admin, written from the property text and
+/// the README: bank sends within the unexpired allowance (cumulatively in list order), staking /
+/// distribution messages whose permission flag is set; nothing else.
+/// Returns the index of the first message the caller's grants do not cover and why.
+fn first_forbidden(msgs: &[CosmosMsg], allow: &Vis, perm: &Permissions) -> Option<(usize, &'static str)> {
+    let mut total: BTreeMap<String, Uint256> = BTreeMap::new();
+    for (i, m) in msgs.iter().enumerate() {
+        match m {
+            CosmosMsg::Bank(BankMsg::Send { amount, .. }) => {
+                for c in amount {
+                    *total.entry(c.denom.clone()).or_insert(Uint256::zero()) += Uint256::from(c.amount);
+                }
+                for c in amount {
+                    if total[&c.denom] > Uint256::from(allow.get(&c.denom)) {
+                        return Some((i, "send-not-covered"));
+                    }
+                }
+            }
+            CosmosMsg::Staking(StakingMsg::Delegate { .. }) => {
+                if !perm.delegate {
+                    return Some((i, "permission-flag-missing"));
+                }
+            }
+            CosmosMsg::Staking(StakingMsg::Undelegate { .. }) => {
+                if !perm.undelegate {
+                    return Some((i, "permission-flag-missing"));
+                }
+            }
+            CosmosMsg::Staking(StakingMsg::Redelegate { .. }) => {
+                if !perm.redelegate {
+                    return Some((i, "permission-flag-missing"));
+                }
+            }
+            CosmosMsg::Distribution(DistributionMsg::SetWithdrawAddress { .. }) | CosmosMsg::Distribution(DistributionMsg::WithdrawDelegatorReward { .. }) => {
+                if !perm.withdraw {
+                    return Some((i, "permission-flag-missing"));
+                }
+            }
+            _ => return Some((i, "message-kind-not-grantable")),
+        }
+    }
+    None
+}
+
+/// per-denom total of all bank sends in a list (zero totals dropped)
+fn send_totals(msgs: &[CosmosMsg]) -> BTreeMap<String, Uint256> {
+    let mut total: BTreeMap<String, Uint256> = BTreeMap::new();
+    for m in msgs {
+        if let CosmosMsg::Bank(BankMsg::Send { amount, .. }) = m {
+            for c in amount {
+                *total.entry(c.denom.clone()).or_insert(Uint256::zero()) += Uint256::from(c.amount);
+            }
+        }
+    }
+    total.retain(|_, v| !v.is_zero());
+    total
+}
+
+// ---------------------------------------------------------------- interpreter
+
+struct Step {
+    call: Call,
+    sender: usize,
+    /// sender index of the subkey an allowance / permission call refers to (None: not one of the observed addresses)
+    target: Option<usize>,
+    kinds: Vec<&'static str>,
+}
+
+#[derive(Default)]
+struct Track {
+    ever_admin: BTreeSet<usize>,
+    ever_granted: BTreeSet<usize>,
+    /// allowance of s vanished during an Advance and was not changed by an admin since
+    expired_now: BTreeSet<usize>,
+    granted: BTreeMap<(usize, String), Uint256>,
+    relayed: BTreeMap<(usize, String), Uint256>,
+    frozen: Option<Vec<String>>,
+    attempts_after_freeze: u32,
+    admin_attempts_after_freeze: u32,
+}
+
+fn resolve_who(wh: &Who, w: &World, o: &Obs, t: &Track) -> usize {
+    let admins: Vec<usize> = (0..N_SENDERS).filter(|i| o.is_admin(w.senders[*i].as_str())).collect();
+    let choose = |k: u16, pool: Vec<usize>| -> usize {
+        if pool.is_empty() {
+            pick(k, N_SENDERS)
+        } else {
+            pool[pick(k, pool.len())]
+        }
+    };
+    match wh {
+        Who::Actor(i) => *i as usize % N_SENDERS,
+        Who::Admin(k) => choose(*k, admins),
+        Who::Granted(k) => choose(*k, (0..N_SENDERS).filter(|i| !admins.contains(i) && t.ever_granted.contains(i)).collect()),
+        Who::Plain(k) => choose(*k, (0..N_SENDERS).filter(|i| !admins.contains(i) && !t.ever_granted.contains(i)).collect()),
+        Who::Removed(k) => choose(*k, (0..N_SENDERS).filter(|i| !admins.contains(i) && t.ever_admin.contains(i)).collect()),
+    }
+}
+
+/// (address string, sender index if it is an observed address)
+fn resolve_sp(sp: &Sp, w: &World, o: &Obs) -> (String, Option<usize>) {
+    let ix = match sp {
+        Sp::Addr(i) => *i as usize % N_ADDR,
+        Sp::NonAdmin(k) => {
+            let pool: Vec<usize> = (0..N_ACTORS).filter(|i| !o.is_admin(w.senders[*i].as_str())).collect();
+            if pool.is_empty() {
+                pick(*k, N_ACTORS)
+            } else {
+                pool[pick(*k, pool.len())]
+            }
+        }
+        Sp::Holding(k) => {
+            let pool: Vec<usize> = (0..N_ACTORS).filter(|i| !o.allow[*i].bal.is_empty()).collect();
+            if pool.is_empty() {
+                pick(*k, N_ACTORS)
+            } else {
+                pool[pick(*k, pool.len())]
+            }
+        }
+    };
+    (w.addrs[ix].clone(), if ix < N_ACTORS { Some(ix) } else { None })
+}
+
+fn perm_of(bits: u8) -> Permissions {
+    Permissions { delegate: bits & 1 != 0, redelegate: bits & 2 != 0, undelegate: bits & 4 != 0, withdraw: bits & 8 != 0 }
+}
+
+/// C16: the query and the call on a copy of the same state
+fn differential(prop: &str, w: &World, pre: &Obs, t: &Track, sender: usize, msg: &CosmosMsg, kind: &str, at: &str, ctx: &mut CaseCtx) -> Result<(), Violation> {
+    let addr = &w.senders[sender];
+    let q = can_execute_on(&w.d, w.subkeys, addr, msg);
+    let mut copy = w.d.clone();
+    let e = exec_on(&mut copy, w.subkeys, addr, &Call::Execute(vec![msg.clone()]));
+    let q_true = matches!(q, Ok(true));
+    let admin = pre.is_admin(addr.as_str());
+    ctx.count("probes");
+    if q.is_err() {
+        ctx.count("probe_query_error");
+    }
+    ctx.count(&format!("probe_{}_{}", if admin { "admin" } else { "nonadmin" }, if q_true { "true" } else { "false" }));
+    if !admin {
+        ctx.count(&format!("probe_nonadmin_{kind}_{}", if q_true { "true" } else { "false" }));
+        if q_true {
+            ctx.flag("probe_nonadmin_true");
+        } else if matches!(msg, CosmosMsg::Bank(BankMsg::Send { .. })) && t.ever_granted.contains(&sender) {
+            // a subkey that holds or held an allowance is refused: amount or expiry
+            ctx.flag("probe_refused_amount_or_expiry");
+            ctx.count("probe_refused_amount_or_expiry");
+            if t.expired_now.contains(&sender) {
+                ctx.count("probe_refused_expired");
+            }
+        }
+    }
+    if q_true != e.is_ok() {
+        let sig = if q_true { "query-true-execute-fails" } else { "query-false-execute-succeeds" };
+        return Err(v(prop, sig, format!("{at}: CanExecute{{sender: sender{sender}, msg: {msg:?}}} answered {q:?} but Execute with just that message on a copy of the same state returned {}", match &e { Ok(_) => "Ok".to_string(), Err(x) => format!("Err({x})") })));
+    }
+    Ok(())
+}
+
+pub fn run_case(prop: &str, case: &Case, ctx: &mut CaseCtx) -> Result<(), Violation> {
+    let mut w = World::new(case.subkeys);
+    let qerr = |e: String| v(prop, "query-failed", format!("a query failed or panicked: {e}"));
+    ctx.count(if case.subkeys { "cases_subkeys" } else { "cases_whitelist" });
+
+    // ---------------- instantiate
+    let init_admins: Vec<String> = case.admins.iter().map(|i| w.addrs[*i as usize % N_ADDR].clone()).collect();
+    {
+        let info = Direct::info(&w.senders[N_ACTORS], &[]);
+        let msg = InstantiateMsg { admins: init_admins.clone(), mutable: case.mutable };
+        let r = if case.subkeys {
+            w.d.tx(|deps, env| cw1_subkeys::contract::instantiate(deps, env, info, msg))
+        } else {
+            w.d.tx(|deps, env| cw1_whitelist::contract::instantiate(deps, env, info, msg))
+        };
+        if r.is_err() {
+            ctx.count("init_rejected");
+            return Ok(());
+        }
+        ctx.count("init_accepted");
+    }
+    let mut pre = w.observe().map_err(qerr)?;
+    let mut t = Track::default();
+    for i in 0..N_SENDERS {
+        if pre.is_admin(w.senders[i].as_str()) {
+            t.ever_admin.insert(i);
+        }
+    }
+    if !pre.mutable {
+        t.frozen = Some(pre.admins.clone());
+        ctx.flag("immutable_from_start");
+    }
+
+    for (step_no, op) in case.ops.iter().enumerate() {
+        // ------------ resolve
+        let step: Step = match op {
+            Op::Advance { blocks, secs } => {
+                w.d.advance(*blocks as u64, *secs as u64);
+                let post = w.observe().map_err(qerr)?;
+                let at = format!("step {step_no} Advance({blocks} blocks, {secs} s)");
+                if post.admins != pre.admins || post.mutable != pre.mutable {
+                    if prop == "C17" {
+                        return Err(v(prop, "admin-list-changed-illegitimately", format!("{at}: the admin list changed {:?}/{} -> {:?}/{} by the passing of time", pre.admins, pre.mutable, post.admins, post.mutable)));
+                    }
+                    return Err(v(prop, "advance-changed-state", format!("{at}: the admin list changed by the passing of time")));
+                }
+                for s in 0..N_SENDERS {
+                    if post.perms[s] != pre.perms[s] {
+                        return Err(v(prop, "advance-changed-state", format!("{at}: permissions of sender{s} changed by the passing of time")));
+                    }
+                    if post.allow[s] != pre.allow[s] {
+                        // time may only hide an allowance (expiry), never alter it
+                        if post.allow[s] != Vis::none() || !is_expired(&pre.allow[s].expires, w.d.height, w.d.time) {
+                            let sig = if prop == "C08" { "advance-changed-allowance" } else { "advance-changed-state" };
+                            return Err(v(prop, sig, format!("{at}: visible allowance of sender{s} changed {:?} -> {:?} although it is not a plain expiry", pre.allow[s], post.allow[s])));
+                        }
+                        t.expired_now.insert(s);
+                        ctx.flag("expiry_crossed");
+                        ctx.count("expiry_crossed");
+                    }
+                }
+                pre = post;
+                continue;
+            }
+            Op::Execute { by, msgs } => {
+                let sender = resolve_who(by, &w, &pre, &t);
+                let mut b = Builder { w: &w, allow: &pre.allow[sender], used: BTreeMap::new() };
+                let built: Vec<CosmosMsg> = msgs.iter().map(|m| b.build(m)).collect();
+                Step { call: Call::Execute(built), sender, target: None, kinds: msgs.iter().map(|m| m.kind()).collect() }
+            }
+            Op::Freeze { by } => Step { call: Call::Freeze, sender: resolve_who(by, &w, &pre, &t), target: None, kinds: vec![] },
+            Op::UpdateAdmins { by, admins } => Step { call: Call::UpdateAdmins(admins.iter().map(|i| w.addrs[*i as usize % N_ADDR].clone()).collect()), sender: resolve_who(by, &w, &pre, &t), target: None, kinds: vec![] },
+            Op::Increase { by, spender, denom, amt, exp } | Op::Decrease { by, spender, denom, amt, exp } => {
+                if !case.subkeys {
+                    ctx.count("op_skipped_on_whitelist");
+                    continue;
+                }
+                let sender = resolve_who(by, &w, &pre, &t);
+                let (sp_str, target) = resolve_sp(spender, &w, &pre);
+                let none = Vis::none();
+                let denom = resolve_den(denom, target.map(|s| &pre.allow[s]).unwrap_or(&none));
+                let denom = denom.as_str();
+                let have = target.map(|s| pre.allow[s].get(denom)).unwrap_or(0);
+                let x = match amt {
+                    Amt::Abs(x) => *x,
+                    Amt::Rel(d) | Amt::Rest(d) => adj(have, *d),
+                    Amt::Frac(k) => frac(have, *k),
+                };
+                let coin = Coin { denom: denom.to_string(), amount: Uint128::new(x) };
+                let e = exp.map(|e| e.resolve(w.d.height, w.d.time));
+                let call = if matches!(op, Op::Increase { .. }) { Call::Increase { spender: sp_str, coin, exp: e } } else { Call::Decrease { spender: sp_str, coin, exp: e } };
+                Step { call, sender, target, kinds: vec![] }
+            }
+            Op::SetPermissions { by, spender, perm } => {
+                if !case.subkeys {
+                    ctx.count("op_skipped_on_whitelist");
+                    continue;
+                }
+                let sender = resolve_who(by, &w, &pre, &t);
+                let (sp_str, target) = resolve_sp(spender, &w, &pre);
+                Step { call: Call::SetPermissions { spender: sp_str, perm: perm_of(*perm) }, sender, target, kinds: vec![] }
+            }
+        };
+        let sender_addr = w.senders[step.sender].clone();
+        let sender_is_admin = pre.is_admin(sender_addr.as_str());
+        let kname = step.call.kind();
+
+        // ------------ C16: every message of an Execute is also a probe on the state before the call
+        if prop == "C16" {
+            if let Call::Execute(msgs) = &step.call {
+                for (i, m) in msgs.iter().enumerate() {
+                    differential(prop, &w, &pre, &t, step.sender, m, step.kinds[i], &format!("step {step_no} (before Execute, message {i})"), ctx)?;
+                }
+            }
+        }
+
+        // ------------ run
+        let res = exec_on(&mut w.d, w.subkeys, &sender_addr, &step.call);
+        let ok = res.is_ok();
+        let post = w.observe().map_err(qerr)?;
+        ctx.count(&format!("op_{kname}_{}", if ok { "ok" } else { "fail" }));
+        ctx.count(&format!("op_{kname}_by_{}_{}", if sender_is_admin { "admin" } else { "nonadmin" }, if ok { "ok" } else { "fail" }));
+        let at = format!(
+            "step {step_no} {} by sender{}({}) at height {} time {} -> {}",
+            match &step.call {
+                Call::Execute(m) => format!("Execute{m:?}"),
+                c => format!("{c:?}"),
+            },
+            step.sender,
+            if sender_is_admin { "admin" } else { "non-admin" },
+            w.d.height,
+            w.d.time,
+            match &res {
+                Ok(_) => "ok".to_string(),
+                Err(e) => format!("err({e})"),
+            }
+        );
+        if !ok && post != pre {
+            return Err(v(prop, "failed-call-changed-state", format!("{at}: harness rollback broken?")));
+        }
+
+        match prop {
+            "C07" => check_c07(&w, &step, res.as_ref().ok(), &pre, &post, &at, ctx)?,
+            "C08" => check_c08(&w, &step, ok, &pre, &post, &at, ctx, &mut t)?,
+            "C17" => check_c17(&w, &step, ok, &pre, &post, &at, ctx, &mut t)?,
+            _ => {}
+        }
+
+        // ------------ bookkeeping shared by all oracles
+        if ok {
+            if let (Call::Increase { .. } | Call::SetPermissions { .. }, Some(s)) = (&step.call, step.target) {
+                t.ever_granted.insert(s);
+            }
+            if let (Call::Increase { .. } | Call::Decrease { .. }, Some(s)) = (&step.call, step.target) {
+                t.expired_now.remove(&s);
+            }
+        }
+        for i in 0..N_SENDERS {
+            if post.is_admin(w.senders[i].as_str()) {
+                t.ever_admin.insert(i);
+            }
+        }
+        pre = post;
+    }
+
+    // ---------------- C16 probes on the reached state
+    if prop == "C16" {
+        for (i, p) in case.probes.iter().enumerate() {
+            let sender = resolve_who(&p.sender, &w, &pre, &t);
+            let mut b = Builder { w: &w, allow: &pre.allow[sender], used: BTreeMap::new() };
+            let m = b.build(&p.msg);
+            differential(prop, &w, &pre, &t, sender, &m, p.msg.kind(), &format!("probe {i} at height {} time {}", w.d.height, w.d.time), ctx)?;
+        }
+    }
+
+    // ---------------- non-triviality
+    ctx.nontrivial = match prop {
+        "C07" => ctx.has("nonadmin_mixed_list") || ctx.has("last_only_forbidden"),
+        "C08" => case.subkeys && ctx.has("multi_spend_ok") && ctx.has("spend_refused") && ctx.has("regrant_after_expiry"),
+        "C16" => ctx.has("probe_nonadmin_true") && ctx.has("probe_refused_amount_or_expiry"),
+        "C17" => ctx.has("self_removal") || (t.frozen.is_some() && t.attempts_after_freeze >= 2 && t.admin_attempts_after_freeze >= 1),
+        _ => false,
+    };
+    Ok(())
+}
+
+fn check_c07(w: &World, s: &Step, resp: Option<&Response>, pre: &Obs, post: &Obs, at: &str, ctx: &mut CaseCtx) -> Result<(), Violation> {
+    let prop = "C07";
+    let _ = post;
+    let sender = w.senders[s.sender].as_str();
+    let admin = pre.is_admin(sender);
+    let Call::Execute(msgs) = &s.call else {
+        // nothing but Execute re-dispatches anything
+        if let Some(r) = resp {
+            if !r.messages.is_empty() {
+                return Err(v(prop, "non-execute-relays", format!("{at}: a call that is not Execute returned {} messages to dispatch", r.messages.len())));
+            }
+        }
+        return Ok(());
+    };
+    let ok = resp.is_some();
+    for k in &s.kinds {
+        ctx.count(&format!("msg_{k}_{}_{}", if admin { "admin" } else { "nonadmin" }, if ok { "relayed" } else { "refused" }));
+    }
+    let forbidden = if admin || !w.subkeys { None } else { first_forbidden(msgs, &pre.allow[s.sender], &pre.perms[s.sender]) };
+    if !admin {
+        let distinct: BTreeSet<&&str> = s.kinds.iter().collect();
+        if msgs.len() >= 2 && distinct.len() >= 2 {
+            ctx.flag("nonadmin_mixed_list");
+        }
+        if w.subkeys && msgs.len() >= 2 && forbidden.map(|f| f.0) == Some(msgs.len() - 1) {
+            ctx.flag("last_only_forbidden");
+            ctx.count(&format!("last_only_forbidden_{}", forbidden.unwrap().1));
+        }
+        if w.subkeys && !msgs.is_empty() {
+            ctx.count(if forbidden.is_none() { "nonadmin_list_covered" } else { "nonadmin_list_not_covered" });
+            if forbidden.is_none() && !ok {
+                ctx.count("nonadmin_list_covered_but_refused");
+            }
+            if forbidden.is_none() && ok && msgs.len() >= 2 {
+                ctx.flag("nonadmin_multi_relayed");
+            }
+        }
+    }
+    let Some(r) = resp else { return Ok(()) };
+    if !admin && !w.subkeys {
+        return Err(v(prop, "whitelist-non-admin-relayed", format!("{at}: Execute by a non-admin of a whitelist proxy succeeded (admins {:?})", pre.admins)));
+    }
+    if let Some((i, why)) = forbidden {
+        return Err(v(prop, why, format!("{at}: the call succeeded although message {i} is not covered by the caller's rights (visible allowance {:?}, permissions {:?}, admins {:?})", pre.allow[s.sender], pre.perms[s.sender], pre.admins)));
+    }
+    // exactly the submitted messages, in order, nothing added, altered or dropped
+    let same = r.messages.len() == msgs.len() && r.messages.iter().zip(msgs.iter()).all(|(sm, m)| sm.msg == *m && sm.gas_limit.is_none() && sm.reply_on == ReplyOn::Never);
+    if !same {
+        return Err(v(prop, "relayed-differs", format!("{at}: relayed {:?}, submitted {:?}", r.messages, msgs)));
+    }
+    Ok(())
+}
+
+fn u256(x: u128) -> Uint256 {
+    Uint256::from(x)
+}
+
+#[allow(clippy::too_many_arguments)]
+fn check_c08(w: &World, s: &Step, ok: bool, pre: &Obs, post: &Obs, at: &str, ctx: &mut CaseCtx, t: &mut Track) -> Result<(), Violation> {
+    let prop = "C08";
+    if !w.subkeys {
+        return Ok(());
+    }
+    let sender = w.senders[s.sender].as_str();
+    let admin = pre.is_admin(sender);
+    // who may see its allowance / permissions change in this call, and to what
+    let mut allow_changer: Option<usize> = None;
+    let mut perm_changer: Option<usize> = None;
+    match &s.call {
+        Call::Execute(msgs) => {
+            let d = send_totals(msgs);
+            let n_sends = msgs.iter().filter(|m| matches!(m, CosmosMsg::Bank(BankMsg::Send { .. }))).count();
+            let only_sends = n_sends == msgs.len() && n_sends > 0;
+            if ok && !admin {
+                let p = &pre.allow[s.sender];
+                let q = &post.allow[s.sender];
+                for (denom, x) in &d {
+                    if *x > u256(p.get(denom)) {
+                        return Err(v(prop, "spend-exceeds-allowance", format!("{at}: relayed {x} {denom} with a visible (unexpired) allowance of {}", p.get(denom))));
+                    }
+                }
+                let mut denoms: BTreeSet<&String> = p.bal.keys().collect();
+                denoms.extend(q.bal.keys());
+                denoms.extend(d.keys());
+                for denom in denoms {
+                    let spent = d.get(denom).copied().unwrap_or(Uint256::zero());
+                    if u256(q.get(denom)) + spent != u256(p.get(denom)) {
+                        return Err(v(prop, "deduction-not-exact", format!("{at}: allowance in {denom} went {} -> {} for relayed sends of {spent}", p.get(denom), q.get(denom))));
+                    }
+                }
+                if q.expires != p.expires {
+                    return Err(v(prop, "spend-changed-expiry", format!("{at}: expiry went {:?} -> {:?} by spending", p.expires, q.expires)));
+                }
+                for (denom, x) in &d {
+                    let r = t.relayed.entry((s.sender, denom.clone())).or_insert(Uint256::zero());
+                    *r += *x;
+                    let g = t.granted.get(&(s.sender, denom.clone())).copied().unwrap_or(Uint256::zero());
+                    if *r > g {
+                        return Err(v(prop, "relayed-exceeds-granted", format!("{at}: sender{} has now relayed {r} {denom} but admins only ever granted it {g}", s.sender)));
+                    }
+                }
+                allow_changer = Some(s.sender);
+                if !d.is_empty() {
+                    ctx.flag("spend_ok");
+                    ctx.count("spend_ok");
+                    if n_sends >= 2 || d.len() >= 2 {
+                        ctx.flag("multi_spend_ok");
+                        ctx.count("multi_spend_ok");
+                    }
+                    if d.iter().any(|(denom, x)| *x == u256(p.get(denom))) {
+                        ctx.count("spend_exhausts_denom");
+                    }
+                }
+            }
+            if !ok && !admin && only_sends && t.ever_granted.contains(&s.sender) {
+                let p = &pre.allow[s.sender];
+                if t.expired_now.contains(&s.sender) {
+                    ctx.flag("spend_refused");
+                    ctx.count("spend_refused_expired");
+                } else if d.iter().any(|(denom, x)| *x > u256(p.get(denom))) {
+                    ctx.flag("spend_refused");
+                    ctx.count("spend_refused_amount");
+                    if n_sends >= 2 && msgs.iter().all(|m| send_totals(std::slice::from_ref(m)).iter().all(|(denom, x)| *x <= u256(p.get(denom)))) {
+                        ctx.count("spend_refused_only_cumulatively");
+                    }
+                } else {
+                    ctx.count("spend_refused_other");
+                }
+            }
+        }
+        Call::Increase { coin, exp, .. } => {
+            if ok {
+                if !admin {
+                    return Err(v(prop, "grant-by-non-admin", format!("{at}: IncreaseAllowance succeeded for a sender that is not an admin (admins {:?})", pre.admins)));
+                }
+                if let Some(e) = exp {
+                    if is_expired(e, w.d.height, w.d.time) {
+                        return Err(v(prop, "expired-expiry-accepted", format!("{at}: an allowance was granted with an expiry that has already passed")));
+                    }
+                }
+                if let Some(x) = s.target {
+                    let (p, q) = (&pre.allow[x], &post.allow[x]);
+                    let mut denoms: BTreeSet<&String> = p.bal.keys().collect();
+                    denoms.extend(q.bal.keys());
+                    denoms.insert(&coin.denom);
+                    for denom in denoms {
+                        let add = if *denom == coin.denom { coin.amount.u128() } else { 0 };
+                        if u256(p.get(denom)) + u256(add) != u256(q.get(denom)) {
+                            return Err(v(prop, "increase-amount", format!("{at}: visible allowance of sender{x} in {denom} went {} -> {} (visible before: {:?}, after: {:?})", p.get(denom), q.get(denom), p, q)));
+                        }
+                    }
+                    *t.granted.entry((x, coin.denom.clone())).or_insert(Uint256::zero()) += Uint256::from(coin.amount);
+                    allow_changer = Some(x);
+                    if t.expired_now.contains(&x) {
+                        ctx.flag("regrant_after_expiry");
+                        ctx.count("regrant_after_expiry");
+                    }
+                    ctx.count("grant_ok");
+                }
+            }
+        }
+        Call::Decrease { coin, .. } => {
+            if ok {
+                if !admin {
+                    return Err(v(prop, "grant-by-non-admin", format!("{at}: DecreaseAllowance succeeded for a sender that is not an admin (admins {:?})", pre.admins)));
+                }
+                if let Some(x) = s.target {
+                    let (p, q) = (&pre.allow[x], &post.allow[x]);
+                    let mut denoms: BTreeSet<&String> = p.bal.keys().collect();
+                    denoms.extend(q.bal.keys());
+                    for denom in denoms {
+                        let want = if *denom == coin.denom { p.get(denom).saturating_sub(coin.amount.u128()) } else { p.get(denom) };
+                        if want != q.get(denom) {
+                            return Err(v(prop, "decrease-amount", format!("{at}: visible allowance of sender{x} in {denom} went {} -> {}, expected {want}", p.get(denom), q.get(denom))));
+                        }
+                    }
+                    allow_changer = Some(x);
+                    ctx.count("decrease_ok");
+                    if coin.amount.u128() > p.get(&coin.denom) {
+                        ctx.count("decrease_saturated");
+                    }
+                }
+            }
+        }
+        Call::SetPermissions { .. } => {
+            if ok {
+                perm_changer = s.target;
+            }
+        }
+        Call::Freeze | Call::UpdateAdmins(_) => {}
+    }
+    for x in 0..N_SENDERS {
+        if post.allow[x] != pre.allow[x] && allow_changer != Some(x) {
+            let sig = if matches!(s.call, Call::Execute(_)) && admin && x == s.sender { "admin-execute-changed-allowance" } else { "allowance-changed-by-unrelated-call" };
+            return Err(v(prop, sig, format!("{at}: visible allowance of sender{x} changed {:?} -> {:?} in a call that is neither an admin's increase/decrease for it nor its own spending", pre.allow[x], post.allow[x])));
+        }
+        if post.perms[x] != pre.perms[x] && perm_changer != Some(x) {
+            return Err(v(prop, "permissions-changed-by-unrelated-call", format!("{at}: permissions of sender{x} changed {:?} -> {:?}", pre.perms[x], post.perms[x])));
+        }
+    }
+    Ok(())
+}
+
+#[allow(clippy::too_many_arguments)]
+fn check_c17(w: &World, s: &Step, ok: bool, pre: &Obs, post: &Obs, at: &str, ctx: &mut CaseCtx, t: &mut Track) -> Result<(), Violation> {
+    let prop = "C17";
+    let sender = w.senders[s.sender].as_str();
+    let admin = pre.is_admin(sender);
+    let is_modify = matches!(s.call, Call::Freeze | Call::UpdateAdmins(_));
+    let changed = post.admins != pre.admins || post.mutable != pre.mutable;
+    if changed && !(ok && is_modify && admin && pre.mutable) {
+        return Err(v(prop, "admin-list-changed-illegitimately", format!("{at}: AdminList went {:?}/mutable={} -> {:?}/mutable={} other than by a successful UpdateAdmins/Freeze of a current admin while mutable", pre.admins, pre.mutable, post.admins, post.mutable)));
+    }
+    if ok && is_modify {
+        if !admin {
+            return Err(v(prop, "modified-by-non-admin", format!("{at}: {} succeeded for a sender that is not in the admin list {:?}", s.call.kind(), pre.admins)));
+        }
+        if !pre.mutable {
+            return Err(v(prop, "modified-while-frozen", format!("{at}: {} succeeded on an immutable proxy", s.call.kind())));
+        }
+        match &s.call {
+            Call::Freeze => {
+                if post.mutable {
+                    return Err(v(prop, "freeze-did-not-freeze", format!("{at}: the proxy is still mutable after a successful Freeze")));
+                }
+                if post.admins != pre.admins {
+                    return Err(v(prop, "freeze-changed-admins", format!("{at}: Freeze changed the admin list {:?} -> {:?}", pre.admins, post.admins)));
+                }
+                ctx.flag("freeze_ok");
+            }
+            Call::UpdateAdmins(_) => {
+                if post.mutable != pre.mutable {
+                    return Err(v(prop, "update-admins-changed-mutable", format!("{at}: UpdateAdmins changed the mutable flag {} -> {}", pre.mutable, post.mutable)));
+                }
+                ctx.flag("update_admins_ok");
+                if !post.is_admin(sender) {
+                    ctx.flag("self_removal");
+                    ctx.count("self_removal");
+                }
+            }
+            _ => {}
+        }
+    }
+    if let Some(frozen) = &t.frozen {
+        if post.mutable || post.admins != *frozen {
+            return Err(v(prop, "changed-after-freeze", format!("{at}: the proxy was frozen with admins {:?} but now reports {:?}/mutable={}", frozen, post.admins, post.mutable)));
+        }
+        if is_modify {
+            t.attempts_after_freeze += 1;
+            ctx.count("attempts_after_freeze");
+            if admin {
+                t.admin_attempts_after_freeze += 1;
+            }
+        }
+    } else if !post.mutable {
+        t.frozen = Some(post.admins.clone());
+    }
+    // allowances and permissions are created or altered only by calls from current admins
+    // (a subkey's own successful spending reduces its own allowance: C08)
+    for x in 0..N_SENDERS {
+        if post.perms[x] != pre.perms[x] && !(ok && admin) {
+            return Err(v(prop, "permissions-changed-by-non-admin", format!("{at}: permissions of sender{x} changed {:?} -> {:?} in a call that is not a successful call of a current admin (admins {:?})", pre.perms[x], post.perms[x], pre.admins)));
+        }
+        if post.allow[x] != pre.allow[x] && !(ok && admin) {
+            let (p, q) = (&pre.allow[x], &post.allow[x]);
+            let own_spending = ok && matches!(s.call, Call::Execute(_)) && x == s.sender && q.expires == p.expires && q.bal.iter().all(|(d, a)| *a <= p.get(d));
+            if !own_spending {
+                return Err(v(prop, "allowance-changed-by-non-admin", format!("{at}: visible allowance of sender{x} changed {:?} -> {:?} in a call that is neither a successful call of a current admin nor its own spending (admins {:?})", p, q, pre.admins)));
+            }
+        }
+        if (post.perms[x] != pre.perms[x] || post.allow[x] != pre.allow[x]) && ok && admin {
+            ctx.count("grant_state_changed_by_admin");
+        }
+    }
+    if !admin && !matches!(s.call, Call::Execute(_)) {
+        ctx.count("admin_only_call_by_non_admin");
+    }
+    Ok(())
+}
+
+// ---------------------------------------------------------------- family
+
+pub struct Cw1Family;
+
+const ASSUME: &[&str] = &[
+    "transactions are atomic: a failed or panicking call leaves no state (direct driver restores the store)",
+    "info.sender is always a valid address (MockApi bech32 validation stands for the chain's); address fields of messages come from a pool of 5 valid addresses plus 2 invalid strings",
+    "dispatch of the relayed messages is outside the proxy: success means the handler returned Ok",
+    "cosmwasm-std, cw-storage-plus, cw-utils (Expiration, NativeBalance), cw2 are trusted as execution substrate",
+    "natively compiled contract code behaves as its wasm build (overflow checks on)",
+];
+
+impl Family for Cw1Family {
+    type Case = Case;
+    fn name(&self) -> &'static str {
+        "cw1"
+    }
+    fn props(&self) -> Vec<PropSpec> {
+        vec![
+            PropSpec { id: "C07", quick_cases: 6000, thorough_cases: 30_000, floor: 300, rule: "case = proxy flavour (70% cw1-subkeys, else cw1-whitelist), admin list of 0-3 entries from a 5-address pool (duplicates, invalid strings), mutable flag, up to 40 (thorough 100) op groups: Execute with 0-5 CosmosMsg of all 22 constructible kinds (amounts relative to the caller's visible allowance), Increase/DecreaseAllowance, SetPermissions, UpdateAdmins, Freeze, Advance; callers resolved against the current state (admin, granted subkey, plain, removed admin, fixed index incl. an outsider). Oracle: Execute ok => caller in pre AdminList, or (subkeys) every message covered by the pre-call visible allowance cumulatively in list order / by the pre-call permission flags; ok => Response.messages equal the submitted list (same order, reply_on never, no gas limit); non-Execute calls return no messages. Non-trivial: a non-admin caller submitted >=2 messages of >=2 kinds, or a list of >=2 messages whose last message is the only one its grants do not cover.", assumptions: ASSUME },
+            PropSpec { id: "C08", quick_cases: 4000, thorough_cases: 20_000, floor: 150, rule: "cw1-subkeys only; same case type weighted towards Increase/Decrease (expiry none or relative to the moving block), Execute with 1-5 bank sends of 0-3 coins (same denom twice, zero amounts, ungranted denoms; amounts as fractions / remainder of the visible allowance), Advance, and a grant;advance;spend;re-grant arm. Oracle on the Allowance/Permissions queries of 6 addresses before and after every call: exact per-denom deduction of a non-admin's relayed sends, sends <= pre-visible allowance, exact increase (from the visible allowance, i.e. from zero once expired) / saturating decrease, frame condition for every other address and call, time only hides allowances, ledger relayed <= granted. Non-trivial: >=1 successful spend with >=2 sends or >=2 denoms, >=1 spend refused for amount or expiry, >=1 expiry crossed followed by a successful re-grant.", assumptions: ASSUME },
+            PropSpec { id: "C16", quick_cases: 2000, thorough_cases: 10_000, floor: 150, rule: "states reached by C07-style histories of up to 25 (thorough 50) op groups on both proxies; every message of every Execute op is probed on the state before the call and 20 generated (valid sender, message) probes on the final state: CanExecute == (Execute{msgs:[msg]} on a clone of the store returns Ok). Non-trivial: the case contains >=1 non-admin probe answered true and >=1 bank-send probe of a subkey that holds or held an allowance answered false (amount or expiry).", assumptions: ASSUME },
+            PropSpec { id: "C17", quick_cases: 5000, thorough_cases: 20_000, floor: 250, rule: "both proxies (50/50), initial admin lists incl. empty/duplicates, 20% immutable; up to 40 (thorough 100) ops weighted towards UpdateAdmins/Freeze by current admins, removed admins, subkeys and strangers plus allowance/permission/Execute calls. Oracle: AdminList compared before/after every call (changes only by a successful UpdateAdmins/Freeze of a sender in the pre list while pre mutable; those calls never succeed otherwise; once immutable the response is identical forever); Allowance/Permissions of 6 addresses change only in successful calls of a pre-list admin, except a subkey's own spending. Non-trivial: >=1 successful UpdateAdmins that removes its sender, or a frozen proxy (Freeze or immutable instantiation) followed by >=2 UpdateAdmins/Freeze attempts of which >=1 by a listed admin.", assumptions: ASSUME },
+        ]
+    }
+    fn strategy(&self, prop: &str, tier: Tier) -> BoxedStrategy<Case> {
+        case_strategy(prop, tier)
+    }
+    fn run(&self, prop: &str, case: &Case, ctx: &mut CaseCtx) -> Result<(), Violation> {
+        run_case(prop, case, ctx)
+    }
+}
